@@ -113,11 +113,13 @@ inductive Err where
   | scope      -- api bridge: "violates scope"
   | statErr    -- fstree: "could not stat query root"
   | unclean    -- fstree: "key is not a clean path" (record keys only)
+  | copyFailed -- unpacking: "failed to extract archive file" (the operating system refused the Mkdir / OpenFile)
   deriving Repr, DecidableEq
 
 def Err.str : Err → String
   | .tooShort => "tooshort" | .integrity => "integrity" | .outside => "outside"
   | .relErr => "rel" | .insecure => "insecure" | .scope => "scope" | .statErr => "staterr" | .unclean => "unclean"
+  | .copyFailed => "copyfailed"
 
 /-- `fstree.buildFilePath` (fstree.go).  Record keys (`checkKeyLength`) must name something strictly
     below the base path and must be clean relative paths (the joined path is literally base + "/" + key);
@@ -303,6 +305,59 @@ def unpackAll (tmpDir : Path) : List Path → List Path × Option Err
     match unpackDst tmpDir n with
     | .error e => ([], some e)
     | .ok d => let (ds, e) := unpackAll tmpDir ns; (d :: ds, e)
+
+/-! #### The archive as a sequence of entries, and what `copyFromZipArchive` asks of the operating system
+
+An entry is its name (any byte string: `archive/zip` hands it over as stored) and the answer of
+`file.FileInfo().IsDir()` (an input of its own: a name ending in `/` is a directory, but so is any name whose
+external attributes say so).  `copyFromZipArchive(file, dstPath)` makes exactly one path-carrying call:
+`os.Mkdir(dstPath, mode)` for a directory entry, `os.OpenFile(dstPath, O_WRONLY|O_CREATE|O_TRUNC, mode)`
+otherwise — with the `dstPath` the loop has just validated, byte for byte (no further translation of the
+name: on POSIX a backslash, a colon, a NUL, a full-width solidus … are ordinary bytes of one path element).
+The loop keeps no state between entries: the verdict on an entry is a function of the unpack directory and
+that entry's name alone.  Whether the operating system grants a call depends on what the earlier calls
+created; that is a parameter (`os done op`), so that the statements hold for every file-system behaviour. -/
+
+structure ZEntry where
+  name : Path
+  isDir : Bool
+  deriving Repr, DecidableEq
+
+inductive FsOp where
+  | mkdir (p : Path)    -- os.Mkdir(p, mode)
+  | create (p : Path)   -- os.OpenFile(p, O_WRONLY|O_CREATE|O_TRUNC, mode) + write
+  deriving Repr, DecidableEq
+
+def FsOp.path : FsOp → Path
+  | .mkdir p => p | .create p => p
+
+/-- `copyFromZipArchive(file, dstPath)`: the call that carries the path. -/
+def copyFromZip (e : ZEntry) (dstPath : Path) : FsOp := if e.isDir then .mkdir dstPath else .create dstPath
+
+/-- The loop of `unpackZipArchive` over `archiveReader.File`: the file-system calls made (in order, including
+    a call the operating system refused) and the error that ended the loop.  `done`: calls granted so far. -/
+def unpackLoop (os : List FsOp → FsOp → Bool) (tmpDir : Path) : List FsOp → List ZEntry → List FsOp × Option Err
+  | done, [] => (done, none)
+  | done, e :: es =>
+    match unpackDst tmpDir e.name with
+    | .error err => (done, some err)
+    | .ok dst =>
+      let op := copyFromZip e dst
+      if os done op then unpackLoop os tmpDir (done ++ [op]) es
+      else (done ++ [op], some .copyFailed)
+
+/-- The operating system on an unpack directory that `EnsureAbsPath(tmpDir)` has just created (only the calls of
+    this loop fill it): `mkdir` needs an existing parent directory and a free name, `O_CREATE|O_TRUNC` needs an
+    existing parent directory and no directory under that name (an existing file is truncated); a path with a NUL
+    byte never reaches the kernel, an element longer than NAME_MAX is refused by it. -/
+def osFresh (tmpDir : Path) (done : List FsOp) (op : FsOp) : Bool :=
+  let p := op.path
+  let parent := dirOf p
+  !p.contains 0 && (splitSep p).all (fun s => s.length ≤ 255) &&
+  (parent = tmpDir || done.contains (.mkdir parent)) &&
+  match op with
+  | .mkdir _ => !done.any (fun o => o.path = p)
+  | .create _ => !done.contains (.mkdir p)
 
 /-- `ScanStorage`: the directory handed to `filepath.Walk`. -/
 def scanRoot (storage cwd root : Path) : Except Err Path :=
